@@ -1,10 +1,102 @@
-"""C06 - operations neither mutate nor alias their inputs (same machine as C01, clauses C06:*)."""
+"""C06 - operations neither mutate nor alias their inputs: DataFrame histories (FrameSM, clauses C06:*)
+plus every public non-in-place Vector method (VectorSM)."""
+import numpy as np
+
+from harness import gamma
 from props import c01
+
+VEC_METHODS = ["drop_na", "head", "tail", "sample", "replace_na", "sort", "unique", "rank", "concat", "as_boolean",
+               "as_bytes", "as_date", "as_datetime", "as_float", "as_integer", "as_object", "as_string", "map", "range",
+               "tolist", "to_strings", "equal", "is_na", "copy"]
+VEC_PALETTES = [gamma.FLOAT_INF, gamma.INT_SMALL, gamma.INT_BIG, gamma.STR_SHORT, gamma.STR_LONG, gamma.STR_FIXED,
+                gamma.DATE, gamma.DATETIME, gamma.BOOL, gamma.OBJ_INT, gamma.BYTES, gamma.TIMEDELTA, gamma.UINT8]
+
+
+def vec_call(v, m, pal, rng, other):
+    if m in ("head", "tail", "sample"):
+        return getattr(v, m)(rng.randint(0, 4))
+    if m == "replace_na":
+        return v.replace_na(pal.value(0))
+    if m == "sort":
+        return v.sort(dir=rng.choice([1, -1]))
+    if m == "rank":
+        return v.rank(method=rng.choice(["min", "max", "ordinal"]))
+    if m == "concat":
+        return v.concat(other)
+    if m == "map":
+        return v.map(lambda x: x)
+    if m == "equal":
+        return v.equal(other)
+    return getattr(v, m)()
+
+
+def vec_record(pal, cells, m, rng):
+    rec = {"m": m, "before": cells, "after": [], "arg_before": [], "arg_after": [], "shares": False, "dtype_same": True,
+           "poke_leaks": False, "err": "", "palette": pal.name}
+    v = pal.vector(cells)
+    other = pal.vector(cells[:2])
+    if m in ("concat", "equal"):
+        rec["arg_before"] = pal.alpha_seq(np.asarray(other))
+    dt = v.dtype
+    try:
+        out = vec_call(v, m, pal, rng, other)
+    except Exception as e:
+        rec["err"] = type(e).__name__
+        out = None
+    rec["after"] = pal.alpha_seq(np.asarray(v))
+    rec["dtype_same"] = v.dtype == dt
+    if m in ("concat", "equal"):
+        rec["arg_after"] = pal.alpha_seq(np.asarray(other))
+    if isinstance(out, np.ndarray):
+        rec["shares"] = bool(out is v or (out.size and v.size and np.shares_memory(out, v)) or
+                             (out.size and other.size and np.shares_memory(out, other)))
+        # a real in-place write into the result must not show in the receiver
+        if out.size and v.size and out.dtype == v.dtype and pal is not gamma.STR_FIXED:
+            try:
+                snap = pal.alpha_seq(np.asarray(v))
+                out[0] = pal.value(2 if len(pal.values) > 1 else 0)
+                rec["poke_leaks"] = pal.alpha_seq(np.asarray(v)) != snap
+            except Exception:
+                pass
+    return rec
 
 
 def run(ctx):
     c01.run_for(ctx, "C06")
+    # Vector half: VectorSMMC (heap model) + every method x palette x small vectors, judged by VectorSMTrace
+    ctx.model_check("VectorSMMC")
+    rng = ctx.rng
+    records = []
+    shapes = [[], [0], [-1], [2, -1, 0], [0, 0, 2, 4], [-1, -1]]
+    for pal in VEC_PALETTES:
+        for cells in shapes:
+            if not pal.supports(cells):
+                continue
+            for m in VEC_METHODS:
+                for _ in range(1 if ctx.tier == "quick" else 4):
+                    records.append(vec_record(pal, list(cells), m, rng))
+    bad = ctx.validate("VectorSMTrace", [{k: v for k, v in r.items() if k != "palette"} for r in records])
+    for i, clause in bad:
+        r = records[i]
+        ctx.fail(":".join(clause.split(":")[:2]), {"method": r["m"], "legacy_fixed_width": r["palette"] == "str/fixedU", "detail": clause},
+                 {"vector_call": r})
+    ctx.extra["vector_calls"] = len(records)
+    ctx.evaluations += len(records)
+    ctx.rule += (" | Vector half: %d calls = %d methods x %d palettes (incl. legacy fixed-width strings) x 6 shapes, receiver/argument "
+                 "snapshots, shares_memory and a real write into the result" % (len(records), len(VEC_METHODS), len(VEC_PALETTES)))
 
 
 def replay(ctx, rp):
-    c01.replay_for(ctx, rp, "C06")
+    vec = [c for c in rp["cases"] if "vector_call" in c]
+    if vec:
+        import random
+        for c in vec:
+            r0 = c["vector_call"]
+            r = vec_record(gamma.BY_NAME[r0["palette"]], r0["before"], r0["m"], random.Random(0))
+            bad = ctx.validate("VectorSMTrace", [{k: v for k, v in r.items() if k != "palette"}])
+            for _, clause in bad:
+                ctx.fail(":".join(clause.split(":")[:2]), {"method": r["m"], "legacy_fixed_width": r["palette"] == "str/fixedU", "detail": clause}, {"vector_call": r})
+            print("replayed vector call", r0["m"], "->", [c_ for _, c_ in bad] or "accepted")
+    rest = {"cases": [c for c in rp["cases"] if "vector_call" not in c]}
+    if rest["cases"]:
+        c01.replay_for(ctx, rest, "C06")
